@@ -164,6 +164,30 @@ func stringEntries() []entry {
 			_ = stringutil.FilterOut(stringutil.SplitTrimmed(s, ":"), func(x string) bool { return x == p })
 			_ = stringutil.CloneSliceOrEmpty(strings.Split(s, "."))
 		}},
+		{"netutil.misc", func(s, p string) {
+			for _, r := range s {
+				_ = netutil.IsValidHostInnerRune(r)
+				_ = netutil.IsValidHostOuterRune(r)
+			}
+			hp, _ := netutil.ParseHostPort(s)
+			_ = netutil.CloneHostPorts([]*netutil.HostPort{hp, nil, {Host: s, Port: 1}})
+			_ = netutil.CloneHostPorts(nil)
+			_ = netutil.AddrFamily(len(s)).String()
+			_ = netutil.AddrFamilyFromRRType(uint16(len(s)))
+			var sb strings.Builder
+			stringutil.WriteToBuilder(&sb, s, p, "")
+			stringutil.WriteToBuilder(&sb)
+			// the error types are part of the surface: format hand-made ones too
+			for _, e := range []error{
+				&netutil.AddrError{Err: errors.New(p), Kind: netutil.AddrKindName, Addr: s}, &netutil.AddrError{Kind: s, Addr: p},
+				&netutil.LabelError{Err: &netutil.RuneError{Kind: s, Rune: -1}, Kind: netutil.LabelKindDomain, Label: s},
+				&netutil.LengthError{Kind: s, Allowed: []int{len(s), -1}, Max: len(p), Length: len(s)}, &netutil.LengthError{Kind: s}, &netutil.LengthError{Kind: s, Max: 1},
+				&netutil.RuneError{Kind: s, Rune: 0x10ffff + 1}, &hostsfile.LineError{Line: len(s)},
+			} {
+				touch(e)
+			}
+			hostsfile.FuncSet(func(*hostsfile.Record) {}).Add(&hostsfile.Record{Names: []string{s}})
+		}},
 		{"timeutil.Duration.UnmarshalText", func(s, _ string) {
 			var d timeutil.Duration
 			touch(d.UnmarshalText([]byte(s)))
